@@ -476,7 +476,7 @@ def run(ctx):
     ctx.log('evaluating %d float sources and %d index streams against the model inside Coq' % (nsrc, nidx))
     bad, errors = core.coq_eval_cases(ctx, HEADER, 'C01.case', terms, 'C01.mismatches', chunk=20, label='numeric')
     # ---- the Gallina '%.7g' / binary32 definitions against the runtime, bit for bit
-    nnum = 20000 if quick else 200000
+    nnum = 12000 if quick else 200000
     nvals, nterms = numfmt_cases(random.Random(ctx.seed + 29), nnum)
     bad_n, err_n = core.coq_eval_cases(ctx, NUM_HEADER, 'C01num.case', nterms, 'C01num.mismatches', chunk=500, label='numfmt')
     errors = errors + err_n
